@@ -240,6 +240,66 @@ example : Lex.token "|hello world|(".toList (1, 1)
   have h := lex_one (.ident "hello world") ['('] (1, 1) (Or.inr (by decide)) (by decide)
   exact h
 
+/-! ## 3. Layout invariance -/
+
+/-- LAYOUT INVARIANCE. A sequence of supported tokens, written down with *any* valid layout —
+arbitrary blanks, line breaks and comments before, between and after the tokens; nothing at all
+between two tokens where the first ends by itself or the second starts with a delimiter — is read
+back as exactly that sequence, without error. -/
+theorem lex_render (ts : List Token) (layout : List (List Char))
+    (hs : ∀ t ∈ ts, SupportedTok t) (hl : ValidLayout ts layout) :
+    (Lex.all (interleave ts layout)).1.map (·.tok) = ts ∧
+      (Lex.all (interleave ts layout)).2 = none :=
+  all_render ts layout hs hl
+
+/-- The same with the gap condition spelled out separator by separator (`ValidGaps`): a separator
+may be empty only after a self-delimiting token, before a token that starts with a delimiter, or
+at the very end (but not after a final `,`). -/
+theorem lex_render_gaps (ts : List Token) (layout : List (List Char))
+    (hs : ∀ t ∈ ts, SupportedTok t) (hl : ValidGaps ts layout) :
+    (Lex.all (interleave ts layout)).1.map (·.tok) = ts ∧
+      (Lex.all (interleave ts layout)).2 = none :=
+  all_render ts layout hs (validLayout_of_gaps ts layout hs hl)
+
+/-- Two valid layouts of the same token sequence are indistinguishable for the lexer. -/
+theorem layout_invariance (ts : List Token) (l₁ l₂ : List (List Char))
+    (hs : ∀ t ∈ ts, SupportedTok t) (h₁ : ValidLayout ts l₁) (h₂ : ValidLayout ts l₂) :
+    (Lex.all (interleave ts l₁)).1.map (·.tok) = (Lex.all (interleave ts l₂)).1.map (·.tok) := by
+  rw [(lex_render ts l₁ hs h₁).1, (lex_render ts l₂ hs h₂).1]
+
+section Example
+private def sampleToks : List Token :=
+  [.lparen, .ident "a", .period, .prim (.str "x)"), .rparen, .quote, .prim (.int (-5))]
+
+private theorem sampleToks_supported : ∀ t ∈ sampleToks, SupportedTok t := by
+  intro t ht
+  simp only [sampleToks, List.mem_cons, List.not_mem_nil, or_false] at ht
+  rcases ht with rfl | rfl | rfl | rfl | rfl | rfl | rfl
+  · trivial
+  · exact Or.inl (by decide)
+  · trivial
+  · trivial
+  · trivial
+  · trivial
+  · show fitsI32 (-5) = true; decide
+
+/-- two quite different ways of writing the same seven tokens -/
+private def layoutA : List (List Char) :=
+  [" ".toList, [], " ;c\n".toList, [' '], [], ['\t'], [], "; end".toList]
+private def layoutB : List (List Char) := [[], ['\n'], [' '], [' '], [], [], [], []]
+
+example : interleave sampleToks layoutA = " (a ;c\n. \"x)\")\t'-5; end".toList := by decide
+example : interleave sampleToks layoutB = "(\na . \"x)\")'-5".toList := by decide
+
+example : (Lex.all " (a ;c\n. \"x)\")\t'-5; end".toList).1.map (·.tok) = sampleToks := by
+  have h := (lex_render sampleToks layoutA sampleToks_supported (by decide)).1
+  exact h
+
+example : (Lex.all "(\na . \"x)\")'-5".toList).1.map (·.tok) = sampleToks := by
+  have h := (lex_render_gaps sampleToks layoutB sampleToks_supported (by decide)).1
+  exact h
+end Example
+
 /-! ## 4. Tokens end only at delimiters -/
 
 /-- Apart from punctuation and string literals (which end with their own last character) and
